@@ -14,7 +14,8 @@ RULE = (
     "sub-check history: the tree is serialised, edited through the public API (append, rename, edit(), set_key, ...) and "
     "serialised again, optionally after an earlier serialise() in the process failed; sub-check roundtrip: " +
     'Hypothesis generates tree descriptors [name, str | [children]] (depth<=5, width<=6) over an escape-heavy '
-    'alphabet plus arbitrary Unicode scalars, with serialise options and a delivery mode (str / chunk list / file); '
+    'alphabet plus arbitrary Unicode scalars, optionally with extra siblings whose names are case variants of an existing '
+    'sibling (same block), with serialise options and a delivery mode (str / chunk list / file); '
     'non-trivial = the tree has a block and a string that needs escaping; distinct = sha1 of the descriptor JSON'
 )
 ASSUMPTIONS = [
@@ -58,7 +59,50 @@ def case_strategy(tier: str):
         'cuts': st.lists(st.integers(0, 1 << 16), max_size=8),
         # the same block OBJECT listed again under another block (no cycles): [which block, under which block]
         'share': st.one_of(st.just([]), st.lists(st.tuples(st.integers(0, 63), st.integers(0, 63)).map(list), max_size=3)),
+        # siblings whose names differ only in case: [which child list, which child, how the new name is cased, insert position]
+        'casevar': st.one_of(st.just([]), st.lists(
+            st.tuples(st.integers(0, 63), st.integers(0, 63), st.sampled_from(CASE_KINDS), st.integers(0, 63)).map(list), max_size=3)),
     })
+
+
+CASE_KINDS = ['upper', 'lower', 'swapcase', 'title', 'casefold']
+
+
+def _child_lists(nodes, out):
+    """Every non-empty child list of the descriptor (the root's first), in document order."""
+    if nodes:
+        out.append(nodes)
+    for _name, value in nodes:
+        if isinstance(value, list):
+            _child_lists(value, out)
+    return out
+
+
+def add_case_variants(tree, casevar):
+    """Descriptor -> descriptor: next to an existing keyvalue, in the SAME block (or the root), put another one whose name is
+    the same text in other casing (upper/lower/swapcase/title/casefold; 'Stra\u00dfe' -> 'STRASSE' included).  Names without a
+    cased character get a cased suffix first, and then both spellings are inserted."""
+    import copy
+    tree = copy.deepcopy(tree)
+    done = 0
+    for which, idx, kind, pos in casevar:
+        lists = _child_lists(tree, [])
+        if not lists:
+            break
+        siblings = lists[which % len(lists)]
+        name, value = siblings[idx % len(siblings)]
+        new = [name]
+        if getattr(name, kind)() == name:
+            name += ['Key', 'Stra\u00dfe', 'oN\u01c5'][pos % 3]
+            new.append(name)
+        new.append(getattr(name, kind)())
+        if new[-1] == new[-2]:
+            new[-1] = name.swapcase()
+        for i, nm in enumerate(new[1:]):
+            val = value if isinstance(value, str) else ([] if (pos + i) % 2 else [['k', 'v']])
+            siblings.insert((pos + i) % (len(siblings) + 1), [nm, copy.deepcopy(val)])
+        done += 1
+    return tree, done
 
 
 def build(node):
@@ -255,6 +299,10 @@ def execute(desc, ctx):
 def _execute(desc, ctx):
     from srctools.keyvalues import Keyvalues
     tree = desc['tree']
+    if desc.get('casevar'):
+        tree, n_var = add_case_variants(tree, desc['casevar'])
+        if n_var:
+            ctx.label('case_variant_siblings')
     root = Keyvalues.root(*[build(n) for n in tree])
     if desc.get('share'):
         # List an existing block object a second time under another block.  append() does not copy, so the tree then holds
@@ -429,7 +477,7 @@ SUBCHECKS = [
                   'delivery:codecs_file', 'delivery:wrapped_binary_file', 'delivery:generator', 'delivery:iter_only',
                   'delivery:vfs_open_str', 'delivery:vfs_bytes_open_str', 'delivery:vfs_read_kv1', 'delivery:rawfs_open_str',
                   'delivery:rawfs_read_kv1',
-                  'shared_block_object')),
+                  'shared_block_object', 'case_variant_siblings')),
     Sub('history', execute_history, strategy=history_strategy, quick=1200, thorough=40000, floor=50,
         must_hit=('mut:edit_name', 'mut:rename', 'mut:set_value', 'pre_fail:single_block', 'pre_fail:pushback_abandoned', 'pre_fail:deep', 'pre_fail:nonstr', 'pre_fail:bad_file', 'pre_fail:raised')),
 ]
